@@ -133,6 +133,17 @@ func drawRoot(t *rapid.T) gRoot {
 	for i := 0; i < nmi; i++ {
 		r.MI[c16Key(t)] = rapid.IntRange(-9, 9).Draw(t, "mi")
 	}
+	// required collections may be nil: the encoder writes them as null and the decoder
+	// reads null back as nil
+	if rapid.IntRange(0, 5).Draw(t, "nil_list") == 0 {
+		r.List = nil
+	}
+	if rapid.IntRange(0, 5).Draw(t, "nil_m") == 0 {
+		r.M = nil
+	}
+	if rapid.IntRange(0, 5).Draw(t, "nil_mi") == 0 {
+		r.MI = nil
+	}
 	if rapid.Bool().Draw(t, "optstr") {
 		r.OptStr = c16String(t)
 	}
@@ -285,13 +296,25 @@ func jsonRoot(t *rapid.T, r gRoot) string {
 	add("i64", fmt.Sprintf("%d", r.I64))
 	add("f", cty.NumberFloatVal(r.F).AsBigFloat().Text('f', -1))
 	add("b", fmt.Sprintf("%v", r.B))
-	add("list", jsonList(t, r.List))
-	add("m", jsonStringMap(t, r.M))
+	if r.List == nil {
+		add("list", "null")
+	} else {
+		add("list", jsonList(t, r.List))
+	}
+	if r.M == nil {
+		add("m", "null")
+	} else {
+		add("m", jsonStringMap(t, r.M))
+	}
 	var mi []string
 	for _, k := range sortedKeys2(r.MI) {
 		mi = append(mi, jstr(t, k)+fmt.Sprintf(":%d", r.MI[k]))
 	}
-	add("mi", "{"+strings.Join(mi, ",")+"}")
+	if r.MI == nil {
+		add("mi", "null")
+	} else {
+		add("mi", "{"+strings.Join(mi, ",")+"}")
+	}
 	add("obj", fmt.Sprintf(`{"x":%s,"n":%d}`, jstr(t, r.Obj.X), r.Obj.N))
 	if r.OptStr != "" {
 		add("opt_str", jstr(t, r.OptStr))
